@@ -123,3 +123,42 @@ def emptiness_holding(expr, pol, name):
             if (op is ast.Eq and b.value == 0) or (op is ast.LtE and b.value == 0) or (op is ast.Lt and b.value == 1):
                 return True
     return False
+
+
+def loop_table_values(funcnode, name, module=None):
+    """The expressions a loop variable stands for when the loop runs over a table written out in the source:
+    `for sig, parse in ((A, f), (B, g)): if x == sig` - `sig` is A or B.  The table is the loop's iterable, a local
+    assigned once, or a module-level constant.  None if `name` is not such a variable."""
+    from .flow import flow_of
+    flow = flow_of(funcnode)
+    out = []
+    found = False
+    for n in ast.walk(funcnode):
+        if not isinstance(n, (ast.For, ast.comprehension)):
+            continue
+        tgt = n.target
+        pos = None
+        if isinstance(tgt, ast.Name) and tgt.id == name:
+            pos = ()
+        elif isinstance(tgt, (ast.Tuple, ast.List)):
+            for i, e in enumerate(tgt.elts):
+                if isinstance(e, ast.Name) and e.id == name:
+                    pos = (i,)
+        if pos is None:
+            continue
+        it = flow.inline(n.iter)
+        if isinstance(it, ast.Name) and module is not None:
+            for st in module.tree.body:
+                if isinstance(st, ast.Assign) and any(isinstance(t, ast.Name) and t.id == it.id for t in st.targets):
+                    it = st.value
+        if not isinstance(it, (ast.Tuple, ast.List)):
+            return None
+        for row in it.elts:
+            if pos == ():
+                out.append(row)
+            elif isinstance(row, (ast.Tuple, ast.List)) and len(row.elts) == len(tgt.elts):
+                out.append(row.elts[pos[0]])
+            else:
+                return None
+        found = True
+    return out if found else None
